@@ -217,7 +217,8 @@ func kmersToInts(f []kmerindex.Kmer) []int {
 
 // tinyPlan: everything there is to ask of a short sequence.
 func tinyPlan(n, k int) plan {
-	pl := plan{tiny: true, full: true, sfull: true, pick: func(int) int { return 0 }}
+	i := 0
+	pl := plan{tiny: true, full: true, sfull: true, pick: func(m int) int { i++; return (i * 5) % m }}
 	if k <= 3 {
 		for km := 0; km <= pow4(k)+1; km++ {
 			pl.kmers = append(pl.kmers, km)
@@ -253,11 +254,18 @@ func Cases(w *vt.W, in string) int {
 			continue
 		}
 		var c struct {
-			S    []int
-			K    int
-			Mink int
-			Kmer *int
-			Text []int
+			S      []int
+			K      int
+			Mink   int
+			Kmer   *int  // a word event
+			Text   []int // a kmerof event
+			Plan   bool  // a stored case: ask exactly the stored questions again
+			Tiny   bool
+			Full   bool
+			Sfull  bool
+			Ranges [][2]int
+			Kmers  []int
+			Texts  [][]int
 		}
 		if err := json.Unmarshal(sc.Bytes(), &c); err != nil {
 			vt.Fatal("bad case line %q: %v", sc.Text(), err)
@@ -279,15 +287,23 @@ func Cases(w *vt.W, in string) int {
 				mink = 4
 			}
 		}
-		pl := tinyPlan(len(s), c.K)
-		if len(s) > 24 {
-			pl = replayPlan(s, c.K)
+		if c.Plan {
+			pl := plan{tiny: c.Tiny, full: c.Full, sfull: c.Sfull, kmers: c.Kmers, ranges: c.Ranges,
+				pick: func(int) int { return 0 }}
+			for _, t := range c.Texts {
+				pl.texts = append(pl.texts, toBytes(t))
+			}
+			w.Emit(Case(s, c.K, mink, pl))
+			continue
 		}
+		pl := tinyPlan(len(s), c.K)
 		// texts: every window as written (both cases, invalid letters), one wrong length
-		for p := 0; p+c.K <= len(s) && p < 64; p++ {
+		for p := 0; p+c.K <= len(s); p++ {
 			pl.texts = append(pl.texts, s[p:p+c.K])
 		}
-		pl.texts = append(pl.texts, s[:c.K-1])
+		if c.K >= 1 && c.K-1 <= len(s) {
+			pl.texts = append(pl.texts, s[:c.K-1])
+		}
 		w.Emit(Case(s, c.K, mink, pl))
 	}
 	if err := sc.Err(); err != nil {
